@@ -1906,6 +1906,22 @@ static void op_set_output(struct ctx *c)
     connect_out(c, n, target, "");
 }
 
+/* applications commonly drop their handle on a pipe inside its source_end event (sub-pipes get it when their super-pipe goes) */
+static void wide_release_on_source_end(struct pfx *pfx, int probe_id, struct upipe *upipe, int event, void *opaque)
+{
+    struct ctx *c = opaque;
+    if (event != UPROBE_SOURCE_END) return;
+    for (int i = 0; i < NNODE; i++) {
+        struct node *n = &c->n[i];
+        if (!n->used || n->upipe != upipe || n->probe != probe_id || !n->held || n->gone || n->sk < 0) continue;
+        R("      (source_end on %s: the application releases its handle inside the event)\n", node_name(c, n));
+        n->held = false;
+        c->classes |= 1u << CL_SUBCHURN;
+        upipe_release(upipe);
+        return;
+    }
+}
+
 static void op_release(struct ctx *c)
 {
     struct node *n = pick_node(c, false, false);
@@ -2050,6 +2066,7 @@ static int run_once(const uint8_t *tp_, size_t len, struct vp_report *rep, unsig
                            .with_uref_mgr = false, .with_ubuf_mem = true, .with_upump_mgr = true, .with_uclock = true };
     if (pfx_init(&c->pfx, &cfg) != 0) return vp_internal(rep, "pfx_init");
     wmgr_init(c);
+    if (ORACLE_LIFE && (cfgb / 12) % 2 == 1) { c->pfx.event_hook = wide_release_on_source_end; c->pfx.event_opaque = c; }
     /* every uref of the case, also those the pipes allocate themselves, comes from the tracking manager */
     c->pfx.services = uprobe_uref_mgr_alloc(c->pfx.services, &c->wmgr);
     c->pfx.services = uprobe_source_mgr_alloc(c->pfx.services, &wsrc_mgr);      /* answers need_source_mgr (segment_source) */
